@@ -40,6 +40,7 @@ func checkC03(r *Run) {
 	r.Rule("C03.R2.insert", "in index.insert every store to the pointer table is reachable only across an edge that proves no overlap for the inserted range, and after a store no conflict error is returned", 4)
 	r.Rule("C03.R2.update", "in index.update the store is reachable only across the false edges of both neighbour-overlap tests, each computed with TimeRange.OverlapsWith(p.TimeRange); after the store no conflict error is returned", 4)
 	r.Rule("C03.R2.direction", "the binary search of unprotectedSearch turns left exactly when the searched range lies wholly before the probed domain and right exactly when it lies wholly after it (decided on every ordering of the four end points of two non-overlapping ranges): any other direction skips the half of a sorted, disjoint table that holds the overlap or the insert position", 1)
+	r.Rule("C03.R3.validate", "Writer.validateCommitRange accepts a commit (returns nil) only across an edge establishing Start < end, on every path - also for a writer that has committed before and for the commit that rolls over to a new file", 1)
 	r.Rule("C03.R2.search", "unprotectedSearch reports overlap (second result true) only on the true edge of ptr.OverlapsWith(tr) for its parameter tr", 1)
 	r.Rule("C03.R3.open", "DB.OpenWriter acquires a file handle only on the false edge of idx.overlap(cfg.Domain())", 1)
 	r.Rule("C03.R3.commit", "Writer.commit reaches index.insert/update only after validateCommitRange returned nil and behind the preset-end test; only Writer.commit references index.insert/update", 4)
@@ -101,6 +102,7 @@ func checkC03(r *Run) {
 	checkUpdate(r, p, ptrField)
 	checkSearch(r, p)
 	checkSearchDirection(r, p)
+	checkCommitRangeValidation(r, p)
 	checkOpenWriterGate(r, p)
 	checkCommitGate(r, p, refs)
 }
@@ -723,4 +725,54 @@ func checkSearchDirection(r *Run, p *Prog) {
 		detail = strings.Join(diffs, "; ")
 	}
 	r.Ob("C03.R2.direction", "unprotectedSearch turns towards the side the searched range lies on", posOf(p, dir), len(diffs) == 0 && cases > 0, detail)
+}
+
+// checkCommitRangeValidation decides C03.R3.validate.
+func checkCommitRangeValidation(r *Run, p *Prog) {
+	fn := p.Func(domainPkg, "Writer", "validateCommitRange")
+	if fn == nil {
+		r.Undecide("C03.R3.validate: Writer.validateCommitRange not found")
+		return
+	}
+	end := paramObj(fn, 0)
+	c := p.CFG(fn)
+	isStart := func(e ast.Expr) bool {
+		sel, ok := ast.Unparen(e).(*ast.SelectorExpr)
+		return ok && sel.Sel.Name == "Start"
+	}
+	gate := c.EdgesEstablishing(func(atom ast.Expr, val bool) bool {
+		call, ok := ast.Unparen(atom).(*ast.CallExpr)
+		if !ok || len(call.Args) != 1 {
+			return false
+		}
+		sel, ok := ast.Unparen(call.Fun).(*ast.SelectorExpr)
+		if !ok {
+			return false
+		}
+		switch sel.Sel.Name {
+		case "Before": // Start.Before(end) == true
+			return val && isStart(sel.X) && objOf(fn, call.Args[0]) == end
+		case "After": // end.After(Start) == true
+			return val && objOf(fn, sel.X) == end && isStart(call.Args[0])
+		case "AfterEq": // Start.AfterEq(end) == false
+			return !val && isStart(sel.X) && objOf(fn, call.Args[0]) == end
+		case "BeforeEq": // end.BeforeEq(Start) == false
+			return !val && objOf(fn, sel.X) == end && isStart(call.Args[0])
+		}
+		return false
+	})
+	q, vis := c.ReachAvoiding([]Point{c.Entry()}, gate, nil)
+	var path []string
+	n := 0
+	for _, ex := range c.Exits() {
+		if ex.Return == nil || len(ex.Return.Results) != 1 || !isNilIdent(fn, ex.Return.Results[0]) {
+			continue
+		}
+		n++
+		if vis[ex.P] {
+			path = q.PathTo(ex.P)
+		}
+	}
+	r.ObPath("C03.R3.validate", "validateCommitRange returns nil only when the commit end lies after the writer's start", p.Position(fn.Pos()), path == nil && n > 0 && len(gate) > 0,
+		"a commit at or before Start is accepted on this path: index.update then replaces the committed domain by an inverted range", path)
 }
